@@ -1,3 +1,4 @@
+import HranoModel.Props.C06
 import HranoModel.Model.Options
 /-!
 C16 — settings follow flag > environment > configuration file > default.
@@ -83,6 +84,12 @@ theorem today_precedence (s : Settings) (layout : Layout) :
   · intro t c ht hp; simp [nowOf, ht, hp]
   · intro ht n hn; simp [nowOf, ht, hn]
   · intro ht hn; simp [nowOf, ht, hn]
+
+/-- the `Today:` line of `stats` shows the configured date: the date is turned into an instant, the instant back into a
+    date (`Date.ofDays`), and that is the date that was given — for every accepted date -/
+theorem today_shown_as_given (l l' : Layout) (t : Bytes) (c : Civil) (h : Date.parse l t = some c) :
+    Date.format l' (Date.ofDays (Date.instant c / Date.nsPerDay)) = Date.format l' c := by
+  rw [(Hrano.C06.day_number_reads_back c (Date.parse_valid l t c h)).2]
 
 /-- an entry of a configuration file that does not exist is never used; one of a file that exists is -/
 theorem config_entries_iff_loaded {α} (s : Settings) (v : Option α) :
